@@ -1357,6 +1357,22 @@ class MChild(Monitor):
         return [self.child_running, self.child_term is not None, self.parent_task_done, self.timeout_step is not None, sorted(self.flagged), len(self.valid_cb_steps)]
 
 # ------------------------------------------------------------------------------------------------------
+class MAckOne(Monitor):
+    """An acknowledgement settles the delivery it names and no other (a poison event acknowledged with basic_ack(multiple) also settles
+    what other executions hold unacknowledged).  Looks at broker operations only, never inside a definition."""
+    name = "M-ackone"
+    def __init__(self):
+        super().__init__()
+        self.seen = False
+    def on_op(self, w, op):
+        if op["op"] == "ack_multiple" and w.step_no > 0 and not self.seen:
+            self.seen = True
+            self.flag(w, "ack_covers_other_deliveries", "one acknowledgement (delivery_tag=%s, multiple) settled %d deliveries on %s" % (
+                op.get("delivery_tag"), len(op.get("tags") or []), ", ".join(op.get("queues") or [])), None, op.get("site"))
+    def state(self):
+        return self.seen
+
+# ------------------------------------------------------------------------------------------------------
 class MRoute(Monitor):
     """C19 affinity: start events travel through the shared queue, every later event of an execution reaches the instance
     that consumed its start; RPC requests carry that instance's reply queue and the task event's id; replies return there."""
